@@ -360,14 +360,16 @@ impl VariationModel {
         let seqs = if seqs.keys().all(|loc| loc.has_exact_axes(self.axis_order())) {
             Cow::Borrowed(seqs)
         } else {
-            let normalized = seqs
-                .iter()
-                .map(|(k, v)| {
-                    let mut k = k.to_owned();
-                    k.fit_to_axes(self.axis_order());
-                    (k, v.clone())
-                })
-                .collect();
+            let mut normalized = HashMap::with_capacity(seqs.len());
+            for (k, v) in seqs.iter() {
+                let mut k = k.to_owned();
+                k.fit_to_axes(self.axis_order());
+                // two locations that only differ in axes they leave out are the same
+                // location; keeping whichever comes last in hash order would be a coin toss
+                if normalized.insert(k.clone(), v.clone()).is_some() {
+                    return Err(DeltaError::DuplicateLocation(k));
+                }
+            }
             Cow::Owned(normalized)
         };
 
@@ -430,6 +432,8 @@ pub enum DeltaError {
     InconsistentNumbersOfPoints,
     #[error("{0:?} is not present in the variation model")]
     UnknownLocation(NormalizedLocation),
+    #[error("More than one point sequence at {0:?} once missing axes are filled in")]
+    DuplicateLocation(NormalizedLocation),
 }
 
 /// Gryffindor!
